@@ -136,10 +136,12 @@ def run(ctx):
                 "features), each run with and without -a. non-trivial iff -a adds at least one packet/byte and the "
                 "application data relation holds.")
     ctx.assumptions = []
-    ctx.prove(["TLX.Props.C13"])
-    ctx.require_theorems(THEOREMS)
+    import session_corr
+    ctx.prove(["TLX.Props.C13", "TLX.Props.C13Session"])
+    ctx.require_theorems(THEOREMS + session_corr.THEOREMS_C13)
     import c06_model
     c06_model.run_model(ctx)          # ties TLX.TcpOut to the real OutputBuilder
+    session_corr.correspond(ctx)      # ties TLX.Session to the real Session (exp_meta on and off)
     explore(ctx)
     return ctx.finish(search=lambda c: explore(c, scale=2))
 
